@@ -68,7 +68,7 @@ def run_case(job):
             rplans = [{'style': rng.choice(['single', 'seek']), 'long_open': False, 'keys': everything},
                       {'style': rng.choice(['bulk', 'meta', 'has']), 'long_open': rng.random() < 0.5, 'keys': everything}]
         for _ in range(nr if kind != 'target' else 0):
-            style = rng.choice(['single', 'bulk', 'meta', 'has', 'seek'])
+            style = rng.choice(['single', 'bulk', 'meta', 'has', 'seek', 'bulkseek'])
             long_open = rng.random() < 0.5
             keys = rng.sample(range(len(pool)), rng.randint(1, 4))
             rplans.append({'style': style, 'long_open': long_open, 'keys': keys})
@@ -125,6 +125,19 @@ def run_case(job):
                     elif plan['style'] == 'bulk':
                         got = c.get_objects_content(ks, skip_if_missing=False)
                         out = {x: got.get(k) for x, k in zip(plan['keys'], ks)}
+                    elif plan['style'] == 'bulkseek':
+                        out = {}
+                        with c.get_objects_stream_and_meta(ks, skip_if_missing=False) as triplets:
+                            for hk, st, meta in triplets:
+                                x = plan['keys'][ks.index(hk)]
+                                if st is None:
+                                    out[x] = None
+                                    continue
+                                head = st.read(2)
+                                n = st.seek(0, 2)
+                                st.seek(0)
+                                data = st.read()
+                                out[x] = data if (n == len(data) == meta['size'] and data[:2] == head) else b'?size-mismatch'
                     elif plan['style'] == 'meta':
                         out = {}
                         for x, k in zip(plan['keys'], ks):
